@@ -225,6 +225,7 @@ class MemberObs:
         self.subscribed = list(spec["topics"])
         self.sub_changes = []  # seq of subscription-changing API calls
         self.incarnation_start = None
+        self.seeks = []  # (seq, tp) harness seeks after NoOffsetForPartition / OffsetOutOfRange
 
 
 def execute(plan):
@@ -261,8 +262,11 @@ def execute(plan):
         cl.group_offsets.setdefault(GROUP, {})[(t, int(p))] = (off, "")
     served = []  # (seq, client, kind, tp, value)  OffsetFetch / ListOffsets replies
 
+    served_key = {}  # seq of an OffsetFetch entry in `served` -> (conn id, api, correlation id)
+
     def on_of(req, group, tp, off):
         served.append((world.log.seq, req.client_id, "committed", tp, off))
+        served_key[world.log.seq] = (req.conn.id, "OffsetFetch", req.correlation_id)
 
     def on_lo(broker, conn, req, tp, ts, off):
         served.append((world.log.seq, req.client_id, "list", tp, (ts, off)))
@@ -380,7 +384,7 @@ def execute(plan):
                 # a raised error has to be consumed for coordination to continue
                 m.errors.append((type(exc).__name__, repr(exc)[:200], world.log.seq))
                 if isinstance(exc, (Errors.NoOffsetForPartitionError, Errors.OffsetOutOfRangeError)):
-                    _seek_after_none(m)
+                    _seek_after_none(m, exc)
                 await asyncio.sleep(0.01)
         m.state = "stopping"
         env_log.append((world.log.seq, world.now(), "stop_begin", m.cid))
@@ -391,14 +395,28 @@ def execute(plan):
         env_log.append((world.log.seq, world.now(), "stop_end", m.cid))
         m.state = "stopped"
 
-    def _seek_after_none(m):
+    def _seek_after_none(m, exc):
+        """What an application does under auto_offset_reset='none': reposition exactly
+        the partitions the error names (the others keep the position they have)."""
         from aiokafka.structs import TopicPartition
-        for tp in list(m.consumer.assignment()):
+        named = exc.args[0] if exc.args else None
+        if isinstance(named, dict):
+            named = list(named)
+        elif isinstance(named, TopicPartition):
+            named = [named]
+        else:
+            named = []
+        assigned = m.consumer.assignment()
+        for tp in named:
+            if tp not in assigned:
+                continue
             part = cl.partition(tp.topic, tp.partition)
             try:
                 m.consumer.seek(TopicPartition(tp.topic, tp.partition), part.log_start)
             except Exception:  # noqa: BLE001
-                pass
+                continue
+            m.seeks.append((world.log.add(world.now(), "harness_seek", m.cid, tp.topic, tp.partition,
+                                          part.log_start), (tp.topic, tp.partition), type(exc).__name__))
         m.seeked = True
 
     def start_member(spec, suffix=""):
@@ -540,7 +558,7 @@ def execute(plan):
     res["nontrivial"] = bool(world.fault_counts) or len(plan["members"]) >= 2
     if res["status"] == "ok":
         ctx = {"members": members, "served": served, "env_log": env_log, "result": result,
-               "delivered_resp": delivered_resp}
+               "delivered_resp": delivered_resp, "served_key": served_key}
         if prop == "C04":
             oracle_c04(plan, world, cl, ctx)
         elif prop == "C05":
@@ -885,6 +903,11 @@ def oracle_c06(plan, world, cl, ctx):
             "live": (res.get("liveness2") or {}).get("live")})
 
 
+def _log_end_at(part, seq):
+    """Log end offset of the partition model as of global event number seq."""
+    return max((st.last_offset + 1 for st in part.log if st.seq <= seq), default=0)
+
+
 def oracle_c13(plan, world, cl, ctx):
     """Group part: each assignment starts at the committed offset if one exists
     and is in range, else per policy."""
@@ -893,7 +916,9 @@ def oracle_c13(plan, world, cl, ctx):
     policy = plan["kw"]["auto_offset_reset"]
     iso = 1 if plan["kw"].get("isolation_level") == "read_committed" else 0
     for m in members.values():
+        prev_lo = lo_now = 0
         for cb, end in _assign_windows(m):
+            prev_lo, lo_now = lo_now, cb["lo"]
             for tp in cb["tps"]:
                 part = cl.partition(*tp)
                 ds = [d for d in m.deliveries if d[1] == tp and d[0] > cb["begin"]
@@ -902,32 +927,80 @@ def oracle_c13(plan, world, cl, ctx):
                     continue
                 first = ds[0][2]
                 cands = _starts_for(served, m.cid, tp, cb["lo"], ds[0][0])
-                committed = [v for k, v in cands if k == "committed"]
-                lists = [v for k, v in cands if k == "list"]
-                ok = False
-                if committed:
-                    c = committed[-1]
-                    if part.log_start <= c <= part.hw:
-                        fv = next((r.offset for r, b in part.visible_records(iso) if r.offset >= c), None)
-                        ok = fv == first
-                    else:
-                        world.probe("committed_out_of_range")
-                        if policy == "none":
-                            ok = getattr(m, "seeked", False)
-                        else:
-                            ok = any(next((r.offset for r, b in part.visible_records(iso)
-                                           if r.offset >= s), None) == first for s in lists)
-                else:
+                lists = sorted(v for k, v in cands if k == "list")
+
+                def from_start(c):
+                    fv = next((r.offset for r, b in part.visible_records(iso) if r.offset >= c), None)
+                    return fv == first
+
+                def seek_ok(prev_lo=prev_lo):
+                    """Policy none: the error reached the poller, which repositioned this
+                    partition (it may do so before the assigned callback of this
+                    incarnation has begun).  NoOffsetForPartitionError is only justified
+                    by a delivered "no committed offset" answer (error raised for the
+                    previous incarnation's state and consumed in this one included)."""
+                    for sq, t, en in m.seeks:
+                        if t != tp or not cb["lo"] < sq < ds[0][0]:
+                            continue
+                        if en == "NoOffsetForPartitionError" and not any(
+                                client == m.cid and t2 == tp and kind == "committed" and val < 0
+                                and prev_lo <= s2 < sq
+                                and ctx["served_key"].get(s2) in ctx["delivered_resp"]
+                                for (s2, client, kind, t2, val) in served):
+                            world.probe("no_offset_error_without_answer")
+                            continue
+                        return from_start(part.log_start)
+                    return False
+
+                def per_policy():
                     if policy == "none":
-                        ok = getattr(m, "seeked", False)
+                        return seek_ok()
+                    return any(from_start(s) for s in lists)
+
+                # every OffsetFetch answer for tp that *reached* this member between the
+                # revoke before this assignment and the first delivery (a reply lost on
+                # the way told the member nothing), with the event number of the reply
+                told = [(sq, val) for (sq, client, kind, t, val) in served
+                        if client == m.cid and t == tp and kind == "committed"
+                        and cb["lo"] <= sq <= ds[0][0]
+                        and ctx["served_key"].get(sq) in ctx["delivered_resp"]]
+                cserved = [(sq, val) for sq, val in told if val >= 0]
+                told_none = any(val < 0 for sq, val in told)
+                committed = [val for sq, val in cserved]
+                end_hi = _log_end_at(part, ds[0][0])
+                ends = []
+                ok = False
+                for c_seq, c in cserved:
+                    # The broker judges the range when it serves the Fetch, some time
+                    # between the OffsetFetch reply and the first delivery, and the log
+                    # end moves while records are appended: in range for that whole
+                    # window -> must start at c; out of range for the whole window ->
+                    # per policy; otherwise the Fetch may have seen either.
+                    end_lo = _log_end_at(part, c_seq)
+                    ends.append(end_lo)
+                    if part.log_start <= c <= end_lo:
+                        ok = ok or from_start(c)
+                    elif c > end_hi or c < part.log_start:
+                        world.probe("committed_out_of_range")
+                        ok = ok or per_policy()
                     else:
-                        ok = any(next((r.offset for r, b in part.visible_records(iso)
-                                       if r.offset >= s), None) == first for s in lists)
+                        world.probe("committed_range_moved_during_lookup")
+                        ok = ok or from_start(c) or per_policy()
+                if not ok and policy == "none":
+                    ok = seek_ok()
+                elif not ok and told_none:
+                    # "no committed offset" is itself an answer of the coordinator; an
+                    # error reply or no reply at all is not, and must be retried
+                    ok = per_policy()
+                if not told:
+                    world.probe("started_without_committed_answer")
                 if not ok:
                     world.violation("C13", "group_member_started_at_wrong_offset", {
                         "member": m.cid, "tp": list(tp), "first_delivered": first,
-                        "committed_served": committed, "list_offsets_served": sorted(lists)[:6],
-                        "policy": policy, "log_start": part.log_start, "hw": part.hw})
+                        "committed_served": committed, "told_no_committed_offset": told_none,
+                        "list_offsets_served": lists[:6],
+                        "policy": policy, "log_start": part.log_start,
+                        "log_end_at_lookup": ends, "log_end_at_first_delivery": end_hi})
         if policy == "none":
             # missing / out-of-range committed offsets must surface as errors
             pass
